@@ -106,7 +106,7 @@ def statsAnswer (ops : KindOps) (stl cil wbs rowlimit : Nat) (batches : List (Li
         let b := truncateMaxValue ops.utf8 (optTl stl) mx
         (some a.1, !a.2, some b.1, !b.2)
       else (some mn, true, some mx, true)
-    | mn, mx => (mn, true, mx, true)
+    | mn, mx => (mn, mn.isSome, mx, mx.isSome)
   -- column index: pages (untruncated values decide the boundary order, emitted values are truncated)
   let pm := pageMM.filterMap (fun p => match p.min, p.max with | some a, some b => some (a, b) | _, _ => none)
   let order := boundaryOrder ops.gt pm
@@ -131,8 +131,20 @@ def statsAnswer (ops : KindOps) (stl cil wbs rowlimit : Nat) (batches : List (Li
     match cmin, cmax with
     | some mn, some mx => vals.all (fun v => ops.specLe mn v && ops.specLe v mx)
     | _, _ => true
-  if okChunk && okPages && okTrunc then model
-  else s!"MODEL-SPEC-MISMATCH model={model} spec=bounds(chunk={showBool okChunk},pages={showBool okPages},truncated={showBool okTrunc})"
+  -- emitted (truncated) page bounds still bound, and the declared boundary order is true of the emitted lists
+  let okEmitted := ((pages.zip pageMM).filter (fun (_, mm) => mm.min.isSome && mm.max.isSome)).zip emitted |>.all
+    (fun ((pg, _), (mn, mx)) => ((pg.flatten).filter (fun v => !(ops.nan v))).all (fun v => ops.specLe mn v && ops.specLe v mx))
+  let rec sortedBy (le : List Nat → List Nat → Bool) : List (List Nat) → Bool
+    | a :: b :: rest => le a b && sortedBy le (b :: rest)
+    | _ => true
+  let mins := emitted.map (·.1)
+  let maxs := emitted.map (·.2)
+  let okOrder :=
+    if order = 1 then sortedBy ops.specLe mins && sortedBy ops.specLe maxs
+    else if order = 2 then sortedBy (fun a b => ops.specLe b a) mins && sortedBy (fun a b => ops.specLe b a) maxs
+    else true
+  if okChunk && okPages && okTrunc && okEmitted && okOrder then model
+  else s!"MODEL-SPEC-MISMATCH model={model} spec=bounds(chunk={showBool okChunk},pages={showBool okPages},truncated={showBool okTrunc},emitted={showBool okEmitted},order={showBool okOrder})"
 
 def showBlocks (blocks : List (List Nat)) : String :=
   toHex ((blocks.map (fun b => (b.map (fun w => natToBytes 4 w)).flatten)).flatten)
@@ -154,7 +166,7 @@ def handle (toks : List String) : String :=
     -- specification only: number of rows and nulls
     let items := ((batches.splitOn ";").map (fun b => if b = "-" then [] else b.splitOn ",")).flatten
     let nulls := (items.filter (· = "n")).length
-    s!"{items.length} {if level = "0" then "x" else toString nulls}"
+    s!"{items.length} {if level = "0" ∨ items.length = 0 then "x" else toString nulls}"
   | ["bloom", nbytes, folds, _fpp, _values, hashes] =>
     match nbytes.toNat?, folds.toNat?, parseList (fun s => s.toNat?) hashes with
     | some nbytes, some folds, some hs =>
